@@ -24,12 +24,22 @@ SPEC = dict(
 )
 
 
+SERIAL_STYLES = ["zero", "random", "wrap", "negative", "random"]
+_calls = [0]
+
+
 def noise_columns(rnd, lines):
     out = []
+    # serial numbers: random (mostly unique), all equal, wrapping around every few atoms, or negative
+    style = SERIAL_STYLES[_calls[0] % len(SERIAL_STYLES)]
+    _calls[0] += 1
+    wrap = rnd.randint(2, 9)
+    n = 0
     for l in lines:
         if pdbgen.is_atom(l):
             body = l.rstrip("\n").ljust(80)
-            serial = "%5d" % rnd.randint(1, 99999)
+            n += 1
+            serial = {"random": "%5d" % rnd.randint(1, 99999), "zero": "    0", "wrap": "%5d" % (n % wrap), "negative": "%5d" % -(n % 9999)}[style]
             occ = "%6.2f" % rnd.uniform(0, 1)
             bf = "%6.2f" % rnd.uniform(0, 99)
             elem = rnd.choice([" C", " N", " O", "XX", "  ", "ZN"])
@@ -93,6 +103,7 @@ def same(a, b, tol=0.0):
 
 def run(ctx):
     rnd = ctx.rng
+    _calls[0] = 0
     from propka.parameters import Parameters
     from propka.input import read_parameter_file
     ignore = read_parameter_file("propka.cfg", Parameters()).ignore_residues
